@@ -19,6 +19,7 @@ func c04Schema(argT, argT2 *hx.TRef) *hx.Schema {
 	dflt := hx.Str("dflt")
 	green := hx.Sym("GREEN")
 	yes := hx.Bool(true)
+	seven := hx.I64(7)
 	s := &hx.Schema{Types: []*hx.TypeDef{
 		{Kind: hx.KEnum, Name: "E0", Values: []*hx.EnumValue{{Name: "RED"}, {Name: "GREEN"}}},
 		{Kind: hx.KInput, Name: "In1", Inputs: []*hx.Arg{
@@ -27,6 +28,11 @@ func c04Schema(argT, argT2 *hx.TRef) *hx.Schema {
 			{Name: "i", Type: hx.Named("Int")}, {Name: "s", Type: hx.Named("String"), Default: &dflt}, {Name: "r", Type: hx.Named("Int").NN()},
 			{Name: "e", Type: hx.Named("E0"), Default: &green}, {Name: "l", Type: hx.ListOf(hx.Named("Int").NN())}, {Name: "n", Type: hx.Named("In1")},
 			{Name: "ln", Type: hx.ListOf(hx.Named("In1"))}, {Name: "k", Type: hx.Named("ID")}}},
+		// In2 is the input object whose registered Go type (c04In2G) has fields narrower than the
+		// declared scalars: a value that does not fit can not be delivered unaltered
+		{Kind: hx.KInput, Name: "In2", Inputs: []*hx.Arg{
+			{Name: "b", Type: hx.Named("Int")}, {Name: "u", Type: hx.Named("Int")}, {Name: "h", Type: hx.Named("Int"), Default: &seven},
+			{Name: "w", Type: hx.Named("Float")}, {Name: "q", Type: hx.Named("Int64")}, {Name: "m", Type: hx.ListOf(hx.Named("In1"))}}},
 	}}
 	q := &hx.TypeDef{Kind: hx.KObject, Name: "Query", Fields: []*hx.Field{
 		{Name: "f", Type: hx.Named("String"), Args: []*hx.Arg{{Name: "a", Type: argT}}},
@@ -39,7 +45,7 @@ func c04Schema(argT, argT2 *hx.TRef) *hx.Schema {
 	return s
 }
 
-var c04Bases = []string{"Int", "Float", "String", "Boolean", "ID", "Int64", "Float64", "Time", "E0", "In0", "In1"}
+var c04Bases = []string{"Int", "Float", "String", "Boolean", "ID", "Int64", "Float64", "Time", "E0", "In0", "In1", "In2", "In0", "In2"}
 
 func genArgType(t *rapid.T, label string) *hx.TRef {
 	base := rapid.SampledFrom(c04Bases).Draw(t, label+"base")
@@ -490,6 +496,24 @@ func conforms(s *hx.Schema, tr *hx.TRef, got interface{}) string {
 		return ""
 	}
 	if td := s.Type(tr.Name); td != nil && td.Kind == hx.KInput {
+		if gs, isGo := got.(goStruct); isGo {
+			// a registered Go struct: undeclared members are impossible, absent and zero are one
+			if gs.Type != tr.Name {
+				return fmt.Sprintf("Go struct for %s where %s is expected", gs.Type, tr.Name)
+			}
+			for _, f := range td.Inputs {
+				v := gs.M[f.Name]
+				if v == nil {
+					continue
+				}
+				ft := *f.Type
+				ft.NonNull = false
+				if msg := conforms(s, &ft, v); msg != "" {
+					return f.Name + ": " + msg
+				}
+			}
+			return ""
+		}
 		m, ok := got.(map[string]interface{})
 		if !ok {
 			return fmt.Sprintf("%T where an input object %s is expected", got, tr.Name)
@@ -598,6 +622,12 @@ func normArg(x interface{}) interface{} {
 			out[k] = normArg(e)
 		}
 		return out
+	case goStruct:
+		out := map[string]interface{}{}
+		for k, e := range t.M {
+			out[k] = normArg(e)
+		}
+		return goStruct{Type: t.Type, M: out}
 	}
 	return hx.Norm(x)
 }
@@ -618,6 +648,24 @@ func eqArg(exp, got interface{}) bool {
 		}
 		return true
 	case map[string]interface{}:
+		if gs, isGo := got.(goStruct); isGo {
+			for k, g := range gs.M {
+				e, has := te[k]
+				if !has || e == nil {
+					if !zeroish(g) {
+						return false
+					}
+					continue
+				}
+				if el, isList := e.([]interface{}); isList && len(el) == 0 && zeroish(g) {
+					continue
+				}
+				if !eqArg(e, g) {
+					return false
+				}
+			}
+			return true
+		}
 		tg, ok := got.(map[string]interface{})
 		if !ok {
 			return false
@@ -671,7 +719,10 @@ type c04Case struct {
 	Text    string   `json:"text"`
 	Vars    []hx.KV  `json:"vars,omitempty"`
 	Mode    string   `json:"mode"`     // good | bad
-	Strat   string   `json:"strategy"` // R | A
+	Strat   string   `json:"strategy"` // R | A | X (reflection: Go methods taking interface{} parameters)
+	// GoInputs: the input object types are bound to Go struct types with RegisterType, the
+	// resolver then receives a *struct instead of a map
+	GoInputs bool `json:"go_inputs,omitempty"`
 	// second argument (always a good literal) to exercise argument ordering
 	ArgT2 *hx.TRef `json:"arg_type2,omitempty"`
 	W2    *hx.Val  `json:"written2,omitempty"`
@@ -719,7 +770,8 @@ func embedVars(t *rapid.T, s *hx.Schema, tr *hx.TRef, w hx.Val, defs *[]string, 
 }
 
 func genCaseC04(t *rapid.T) *c04Case {
-	c := &c04Case{ArgT: genArgType(t, "T"), Strat: rapid.SampledFrom([]string{"R", "A"}).Draw(t, "strategy")}
+	c := &c04Case{ArgT: genArgType(t, "T"), Strat: rapid.SampledFrom([]string{"R", "A", "X"}).Draw(t, "strategy")}
+	c.GoInputs = rapid.IntRange(0, 2).Draw(t, "goInputs") == 0
 	c.Channel = rapid.SampledFrom([]string{"literal", "literal", "var", "default", "nested"}).Draw(t, "channel")
 	c.Mode = rapid.SampledFrom([]string{"good", "bad", "bad"}).Draw(t, "mode")
 	s := c04Schema(c.ArgT, nil)
@@ -815,15 +867,13 @@ func checkC04(c *c04Case) (ds []hx.Discrepancy, verdict string, invoked bool) {
 	add := func(kind, sig, format string, args ...interface{}) {
 		ds = append(ds, hx.Discrepancy{Kind: kind, Sig: sig, Detail: fmt.Sprintf(format, args...)})
 	}
-	cs, s := c.world()
-	w, err := NewWorld(cs)
+	res, text, calls, vars, s, pan, err := c.execute()
 	if err != nil {
 		add("setup", "", "%v", err)
 		return
 	}
-	res, text, pan := w.Resolve()
 	ctx := func() string {
-		return fmt.Sprintf("\nargument type: %s  written: %s  channel=%s strategy=%s\nrequest: %s\nvars: %v\nresponse: %s", c.ArgT, hx.ValueSDL(c.W), c.Channel, c.Strat, text, cs.GoVars(), hx.Show(hx.Norm(res)))
+		return fmt.Sprintf("\nargument type: %s  written: %s  channel=%s strategy=%s go-inputs=%v\nrequest: %s\nvars: %v\nresponse: %s", c.ArgT, hx.ValueSDL(c.W), c.Channel, c.Strat, c.GoInputs, text, vars, hx.Show(hx.Norm(res)))
 	}
 	if pan != nil {
 		add("panic", "", "ResolveString panicked: %v%s", pan, ctx())
@@ -831,8 +881,11 @@ func checkC04(c *c04Case) (ds []hx.Discrepancy, verdict string, invoked bool) {
 	}
 	var exp interface{}
 	exp, verdict = denote(s, c.ArgT, c.W)
+	if c.GoInputs && verdict != "bad" && goRangeBad(s, c.ArgT, c.W) {
+		verdict = "bad" // does not fit the Go field it is bound to: must be refused, never wrapped
+	}
 	var call *Call
-	for _, cl := range w.Calls() {
+	for _, cl := range calls {
 		if cl.Key == "k" {
 			cc := cl
 			call = &cc
@@ -857,6 +910,7 @@ func checkC04(c *c04Case) (ds []hx.Discrepancy, verdict string, invoked bool) {
 		return
 	}
 	got, has := call.HasArgs["a"]
+	got = fromGo(s, got)
 	if !has {
 		add("argument-missing", "", "resolver invoked without the written argument a%s", ctx())
 		return
@@ -872,7 +926,11 @@ func checkC04(c *c04Case) (ds []hx.Discrepancy, verdict string, invoked bool) {
 	}
 	if c.W2 != nil {
 		e2, v2 := denote(s, c.ArgT2, *c.W2)
+		if c.GoInputs && goRangeBad(s, c.ArgT2, *c.W2) {
+			v2 = "bad"
+		}
 		if g2, has2 := call.HasArgs["b"]; has2 && v2 == "good" {
+			g2 = fromGo(s, g2)
 			if msg := conforms(s, c.ArgT2, g2); msg != "" {
 				add("does-not-conform", "", "second argument b=%#v does not conform to %s: %s%s", g2, c.ArgT2, msg, ctx())
 			} else if !eqArg(e2, normArg(g2)) {
@@ -887,7 +945,7 @@ func TestC04(t *testing.T) {
 	run := hx.NewRun("C04")
 	defer run.Flush()
 	classes := func(c *c04Case, verdict string, invoked bool) (bool, []string) {
-		cl := []string{"channel=" + c.Channel, "strategy=" + c.Strat, "verdict=" + verdict, "base=" + c.ArgT.BaseName(),
+		cl := []string{"channel=" + c.Channel, "strategy=" + c.Strat, "verdict=" + verdict, "base=" + c.ArgT.BaseName(), fmt.Sprintf("go-inputs=%v", c.GoInputs),
 			c.ArgT.BaseName() + "/" + verdict + "/" + c.Channel}
 		if invoked {
 			cl = append(cl, "resolver-invoked")
